@@ -199,7 +199,7 @@ def build(sim, typ):
     sil = case.silicon()
     app = sil.app
     if kind == "mutated":
-        m = sim.pick("cc.mut", ["cclen", "mle0", "mlc0", "tlvtag", "tlvlen", "nlen_big", "bytes", "ver", "short_cc", "fid"])
+        m = sim.pick("cc.mut", ["cclen", "mle0", "mlc0", "tlvtag", "tlvlen", "nlen_big", "bytes", "ver", "short_cc", "fid", "huge"])
         cc = app.files[b"\xE1\x03"]
         if m == "cclen":
             v = sim.pick("cclen", [0, 1, 2, 3, 7, 14, 16, 255, 0xFFFF])
@@ -220,10 +220,26 @@ def build(sim, typ):
             cc[9:11] = sim.pick("fid", [b"\xE1\x03", b"\x00\x00", b"\xFF\xFF", b"\x3F\x00"])
         elif m == "bytes":
             app.files[b"\xE1\x03"] = _mut(sim, cc, 0, len(cc))
+        elif m == "huge":
+            # mapping version 3 file (4 byte NLEN, 32 bit size limit) longer than a 16 bit READ BINARY offset reaches,
+            # on a card that takes P1-P2 as a plain 16 bit offset
+            total = sim.pick("huge.size", [0x10000 + 4, 0x10000 + 300, 70000])
+            nlen = sim.pick("huge.nlen", [0xFFFB, 0xFFFC, 0xFFFD, 0x10000, total - 4])
+            cc[2] = 0x30
+            cc[3:5] = b"\x00\xFF"
+            cc[7:9] = b"\x06\x08"
+            cc[9:] = bytes(app.ndef_fid) + total.to_bytes(4, "big") + b"\x00\x00"
+            cc[0:2] = len(cc).to_bytes(2, "big")
+            f = app.files[app.ndef_fid]
+            f[:] = nlen.to_bytes(4, "big") + bytes(f[4:]) + bytes(total - len(f))
+            case.mle = 0xFF
+            d["huge"] = [total, nlen]
         elif m == "nlen_big":
             f = app.files[app.ndef_fid]
             f[0:case.nlen_size] = sim.pick("nlen", [0xFFFF, len(f), len(f) - 1, 0x8000]).to_bytes(4, "big")[-case.nlen_size:]
         app.enforce = not sim.chance("lenient_card", 0.5)
+        if m == "huge":
+            app.enforce = False
         d["cc"] = m
     elif kind == "random":
         rnd = _random.Random(sim.choose("rnd", 1 << 30))
